@@ -31,6 +31,7 @@ type Stats struct {
 	GoStmts   int
 	MapRanges int
 	Timers    int
+	TypeSeams int
 	// RangesUnknown lists range statements whose operand type could not be
 	// resolved (possible un-rewritten map iteration).
 	RangesUnknown []string
@@ -184,6 +185,22 @@ func (in *inst) file(f *ast.File) {
 					n.Fun = sel("simsync", "AfterFuncAt")
 					n.Args = append([]ast.Expr{in.site(n.Pos())}, n.Args...)
 					in.st.Timers++
+				}
+			}
+		case *ast.Field:
+			// type seam for the client's UDP router: RouteUDP asks for a concrete
+			// *net.UDPConn but only uses ReadFrom/WriteTo/Close; in the instrumented
+			// copy the parameter types become net.PacketConn so that the simulated
+			// network can stand in for the local UDP socket (a tree that starts using
+			// UDPConn-only methods no longer builds: exit 2, never a violation)
+			if strings.HasPrefix(in.rel, "internal/client/") {
+				if star, ok := n.Type.(*ast.StarExpr); ok {
+					if se, ok := star.X.(*ast.SelectorExpr); ok {
+						if id, ok := se.X.(*ast.Ident); ok && id.Name == "net" && se.Sel.Name == "UDPConn" {
+							n.Type = sel("net", "PacketConn")
+							in.st.TypeSeams++
+						}
+					}
 				}
 			}
 		case *ast.SelectorExpr:
